@@ -46,6 +46,16 @@ CLAIMS = {
         note='Not decided: exactly-once across schedules (reduced to one future per request + one handler call per future + C04 queueing), payload byte equality (C10). '
              'Known finding D18 (client role acknowledges QoS 2 with PUBACK) is listed in known_findings.json.',
         ref='DESIGN.md section 5 C03'),
+    'C07': dict(
+        technique='MIR typestate / region rules over IoDispatcherState + teardown pairing (static analysis)',
+        text='Typestate rules over the io dispatcher, all paths: every control call carrying Control::Stop enters the Stop state (stop() or st = Stop(Some(fut))), occurs only in '
+             'the Processing/Backpressure regions or poll_service, no second stop() is reachable before the state is re-examined, poll_service paths that stopped return Continue, '
+             'late states never call the control service and only move forward; failure sources map to the right Control constructor (11 sites, table by enum variant); the '
+             'stopping condition is notified only in Shutdown, which is entered only on the Ready edge of the control future; every dispatcher shutdown and every '
+             'Control::Stop arm reaches clear_queues/drop_payload on all paths; clear_queues clears waiters and in-flight entries; Stop always holds Some(fut); handle_timeout has '
+             'no unchecked arithmetic.',
+        note='Not decided: that futures actually resolve and the task completes (liveness), byte-offset fault sequences. queue[idx] is assumed (C04 runtime-integer invariant).',
+        ref='DESIGN.md section 5 C07'),
 }
 
 NA_REASONS = {}
